@@ -16,6 +16,8 @@ import time
 import concurrent.futures
 
 from vlib import common as C
+from tools import k2v_types
+from tools.k2v import GenError
 
 PID = "C16"
 UNIT = "types"
@@ -25,6 +27,8 @@ PINNED = [
     "erase_asserts_sim", "erase_asserts_sim_entry", "clean_run_run", "erase_is_filter", "erase_no_asserts",
     "assert_sites_complete", "ignored_rebind_asserted", "check_sites_kept",
 ]
+
+SITES_PINNED = ["output_paths_checked", "output_paths_enumerated"]
 
 ERR_TYPE_STR = "Error: expected string as result of @type"
 SPECIAL = ("Any", "Callable", "Indexable", "Iterable")
@@ -429,6 +433,46 @@ def gen_catch_template(rng):
     return dyn_template(T(name, K, lines, 0, n, throw=True, group="typed catch (structured)", expect=expect))
 
 
+# every way a function can produce its value x a return hint: `return e` / bare `return` in statement position
+# (inside if / else / nested if / for / while / loop / match arm, followed by more code) or as the last expression,
+# the implicit value of the last expression, falling off an un-taken `if` or a finished loop (null)
+RETURN_WRAPPERS = {
+    # name: (lines with {S}, the statement runs iff c == <bool> (None: always), usable as last expression when skipped)
+    "if": (["if c", "  {S}"], True, True),
+    "else": (["if c", "  z = 1", "else", "  {S}"], False, False),
+    "nested_if": (["if c", "  if c", "    {S}"], True, True),
+    "for_if": (["for i in 0..3", "  if i == 1 and c", "    {S}"], True, True),
+    "for": (["for i in 0..3", "  {S}"], None, False),
+    "while_if": (["n = 0", "while n < 2", "  n += 1", "  if c", "    {S}"], True, True),
+    "loop": (["loop", "  {S}"], None, False),
+    "match_arm": (["match c", "  true then", "    {S}", "  else", "    z = 1"], True, False),
+    "if_in_else_of_match": (["match c", "  false then", "    z = 1", "  else", "    if c", "      {S}"], True, False),
+    "plain": (["{S}"], None, False),
+}
+
+
+def gen_return_template(rng):
+    wname = rng.choice(sorted(RETURN_WRAPPERS))
+    wlines, runs_iff, last_ok = RETURN_WRAPPERS[wname]
+    bare = rng.chance(3, 5)
+    stmt = "return" if bare else "return q"
+    position = rng.choice(["statement", "statement", "last"])
+    if runs_iff is None:
+        c, runs = rng.chance(1, 2), True
+    else:
+        # a bare `return` inside an un-taken `if` that is the function's last expression is left out: koto reads
+        # a register that was never set there (panic at vm.rs get_register / garbage result), with or without hints
+        runs = rng.chance(3, 4) or (position == "last" and (not last_ok or bare))
+        c = runs_iff if runs else (not runs_iff)
+    body = [l.replace("{S}", stmt) for l in wlines]
+    if position == "statement" and wname != "plain":
+        body.append("q")                  # the implicit return reached when the statement did not run
+    returns_null = (runs and bare) or (not runs and position == "last")
+    lines = ["f = |q, c| -> {H}"] + ["  " + l for l in body] + [f"f v, {'true' if c else 'false'}"]
+    name = "gr:%s:%s:%s:%s" % (wname, "bare" if bare else "expr", position, c)
+    return dyn_template(T(name, A, lines, None, 0, value=NULLV if returns_null else None, group="return (structured)"))
+
+
 RHS_FORMS = ["temp", "tuple_var", "list_var", "call", "iter", "generator", "range", "string"]
 
 
@@ -517,7 +561,7 @@ def make_case(origin, snippets):
         lines += snippet_src(i, t, d, variant, h, opt)
         cv = t.value if t.value is not None else d
         m = py_matches(cv, h, opt)
-        n_asserts += t.asserts
+        n_asserts = None if (n_asserts is None or t.asserts is None) else n_asserts + t.asserts
         n_checks += t.checks
         for out, is_on in ((exp_on_out, True), (exp_off_out, False)):
             if is_on and on_fails:
@@ -611,7 +655,8 @@ def gen_cases(tier, seed):
     scale = 1 if tier == "quick" else 8
     for maker, origin, count in ((gen_match_template, "structured:match", 1800 * scale),
                                  (gen_catch_template, "structured:catch", 500 * scale),
-                                 (gen_multi_assign_template, "structured:multi-assign", 900 * scale)):
+                                 (gen_multi_assign_template, "structured:multi-assign", 900 * scale),
+                                 (gen_return_template, "structured:return", 900 * scale)):
         for _ in range(count):
             t = maker(rng)
             d, var, h, opt = pick_pair(t)
@@ -635,9 +680,10 @@ def gen_cases(tier, seed):
         sn = []
         want_fail = rng.chance(1, 3)
         for j in range(k):
-            r4 = rng.below(8)
+            r4 = rng.below(9)
             t = (gen_match_template(rng) if r4 == 0 else gen_catch_template(rng) if r4 == 1
-                 else gen_multi_assign_template(rng) if r4 == 2 else rng.choice(TEMPLATES))
+                 else gen_multi_assign_template(rng) if r4 == 2 else gen_return_template(rng) if r4 == 3
+                 else rng.choice(TEMPLATES))
             pool = [(d, var) for d, var in vals if not t.throw or throwable(d)]
             d, var = rng.choice(pool)
             cvd = t.value if t.value is not None else d
@@ -849,10 +895,36 @@ KNOWN_TEXT = {}     # C16a (ignored typed rebind in map-destructuring assignment
 
 def run(tier, seed):
     chk = C.Check(PID, tier, seed, "proof")
+    # ---- tie: the exit paths of functions with an output type, regenerated from compiler.rs
+    try:
+        info, _ = k2v_types.gen_output_sites(os.path.join(C.COQ, UNIT, "GenOutputSites.v"),
+                                             os.path.join(C.BUILD, "gen", f"output_sites-{C.repo_tag()}.json"))
+        unchecked = [f"{p['fn']} exit #{p['ordinal']} (line {p['line_in_fn']} of the fn)" for p in info["paths"]
+                     if not p["checked"]]
+        chk.oblige("gen:every Return/Yield pushed by compile_return / compile_frame / compile_yield is dominated by "
+                   "compile_check_output_type", not unchecked, "; ".join(unchecked))
+        if unchecked:
+            chk.log("exit paths without an output type check: " + "; ".join(unchecked))
+        gen_ok = True
+    except GenError as e:
+        gen_ok = False
+        chk.oblige("gen:output-sites (k2v_types)", False, str(e))
+        chk.log(f"translator failed: {e}")
     # ---- T
-    ok, log = C.coq_build(UNIT)
+    main_targets = [f[:-2] + ".vo" for f in sorted(os.listdir(os.path.join(C.COQ, UNIT)))
+                    if f.endswith(".v") and not f.startswith(("Gen", "C16SitesProps", "cases_"))]
+    ok, log = C.coq_build(UNIT, main_targets)
     if not ok:
         chk.log("coq/types does not build:\n" + log[-2500:])
+    if gen_ok:
+        sp = C.check_props_file(UNIT, "C16SitesProps", SITES_PINNED)
+        for name in SITES_PINNED:
+            chk.oblige("thm:" + name, sp["ok"] and name not in sp["missing"] and not sp["bad_axioms"])
+        if not sp["ok"]:
+            chk.log("C16SitesProps does not check:\n" + sp["log"][-800:])
+    else:
+        for name in SITES_PINNED:
+            chk.oblige("thm:" + name, False, "GenOutputSites.v could not be regenerated")
     pr = C.check_props_file(UNIT, "C16Props", PINNED)
     hits = C.forbidden_scan(UNIT)
     if not pr["ok"]:
